@@ -173,11 +173,11 @@ pub fn order_signature(fs: &Fs) -> Vec<u8>
 {
     let table = decode_table(fs);
     let mut stamps: BTreeSet<u64> = BTreeSet::new();
-    for (p, n) in fs.map.iter() { if crate::world::is_state_file(p) { continue; } if let Node::File(f) = n { stamps.insert(f.mtime); } }
+    for (p, n) in fs.map.iter() { if crate::world::is_state_file(p) { continue; } if let Node::File(f) = n { stamps.insert(crate::memsys::stamp_micros(f.mtime)); } }
     if let Some(Some(t)) = &table { for (_p, st) in t.iter() { stamps.insert(st.timestamp); } }
     let rank: BTreeMap<u64, u32> = stamps.iter().enumerate().map(|(i, x)| (*x, i as u32)).collect();
     let mut out = vec![];
-    for (p, n) in fs.map.iter() { if crate::world::is_state_file(p) { continue; } if let Node::File(f) = n { out.extend_from_slice(p.as_bytes()); out.extend_from_slice(&rank[&f.mtime].to_le_bytes()); } }
+    for (p, n) in fs.map.iter() { if crate::world::is_state_file(p) { continue; } if let Node::File(f) = n { out.extend_from_slice(p.as_bytes()); out.extend_from_slice(&rank[&crate::memsys::stamp_micros(f.mtime)].to_le_bytes()); } }
     if let Some(Some(t)) = &table { for (p, st) in t.iter() { out.extend_from_slice(p.as_bytes()); out.extend_from_slice(&rank[&st.timestamp].to_le_bytes()); } }
     out
 }
